@@ -352,6 +352,9 @@ func (fx *fakeExchange) distributeRound(scripts map[string][]string, round int) 
 			fx.mu.Lock()
 			fx.served[idx] = append(fx.served[idx], fmt.Sprintf("%s@%d", label, len(calls)))
 			fx.mu.Unlock()
+			// every incoming message is hashed (the client computes the CID of what it received before it
+			// looks at its want list), so also the ones that come after the want was satisfied run the
+			// registered unmarshal function
 			got, err := want.Prefix().Sum(data)
 			if err != nil || !got.Equals(want) {
 				continue
@@ -373,7 +376,6 @@ func (fx *fakeExchange) distributeRound(scripts map[string][]string, round int) 
 					}
 				}
 			}
-			break // the wants are satisfied
 		}
 	}
 }
